@@ -1,0 +1,44 @@
+//go:build verif
+
+package queue
+
+// Verification hook (add-only, build tag verif): lets the C36 harness create a topic
+// with small channel capacities (the constants 64/40960 cannot be changed from outside)
+// and read the channel lengths. No behaviour of the package is changed.
+
+// VerifPresetTopic installs an open chanSub for topic with the given capacities.
+// It returns false when the topic already exists or q is not the package's queue type.
+func VerifPresetTopic(q Queue, topic string, high, low int) bool {
+	qq, ok := q.(*queue)
+	if !ok {
+		return false
+	}
+	qq.mu.Lock()
+	defer qq.mu.Unlock()
+	if _, ok := qq.chanSubs[topic]; ok {
+		return false
+	}
+	qq.chanSubs[topic] = &chanSub{
+		high:    make(chan *Message, high),
+		low:     make(chan *Message, low),
+		isClose: 0,
+		done:    make(chan struct{}),
+	}
+	return true
+}
+
+// VerifLens returns len(high), len(low) and the isClose flag of the topic's current
+// chanSub (0,0,false when the topic does not exist; it is not created).
+func VerifLens(q Queue, topic string) (h, l int, closed bool) {
+	qq, ok := q.(*queue)
+	if !ok {
+		return 0, 0, false
+	}
+	qq.mu.Lock()
+	defer qq.mu.Unlock()
+	sub, ok := qq.chanSubs[topic]
+	if !ok {
+		return 0, 0, false
+	}
+	return len(sub.high), len(sub.low), sub.isClose == 1
+}
